@@ -14,6 +14,7 @@ COMMON_ASSUMPTIONS = [
 ]
 
 ENGINES = ['global_cache', 'thread_local_cache', 'async_cache']
+ENGINES_SCORES = ENGINES + ['scores']
 
 def _lock(kinds, prop):
     def run(tier):
@@ -35,7 +36,7 @@ PROPERTIES = {
     'C04': dict(units=ENGINES, explanation='wf / bound / exact-victim postconditions of insert and of the entry-limit eviction, all N, all six policies'),
     'C01': dict(units=ENGINES, explanation='get returns a clone of the value stored under exactly this key; insert: last store wins, survivors unchanged'),
     'C07': dict(units=ENGINES, explanation='queue postconditions: hit_recency, store moves key to back, FIFO/LRU victim is the queue front'),
-    'C08': dict(units=ENGINES, explanation='hit_counts postcondition and argmin postconditions of the scoring helpers'),
+    'C08': dict(units=ENGINES_SCORES, explanation='hit_counts postcondition and argmin postconditions of the scoring helpers'),
     'C05': dict(units=ENGINES, explanation='insert_with_memory: total <= max_memory after every store, oversize value not cached and displaces nothing, no eviction while the total fits, FIFO/LRU victims are the oldest; memory totals are a proved fold along the queue (no total axioms)',
                 assumptions=['hit counters never saturate (u64::MAX hits on one entry)', 'sum of the estimates fits usize (machine arithmetic)']),
     'C15': dict(units=ENGINES, explanation='exactly one counter is bumped by exactly one per lookup'),
